@@ -99,7 +99,13 @@ theorem getBodyString_effect (q : Req) :
 /-- accesses made by the framework on the application's behalf (everything but the application
 reading `wsgi.input` itself) -/
 def Access.framework : Access → Bool
-  | .inputRead => false
+  | .bodyRead _ => true
+  | .bodyString => true
+  | _ => false
+
+/-- accesses that leave `wsgi.input` alone (everything but its replacement by the application) -/
+def Access.keepsInput : Access → Bool
+  | .replaceInput _ => false
   | _ => true
 
 /-- every framework access touches the request exactly like `Request.body`, up to the file
@@ -111,6 +117,8 @@ theorem access_effect (q : Req) (a : Access) (ha : a.framework = true) :
     ((q.access a).2.cache.map (·.1) = (q.body).2.cache.map (·.1)) := by
   cases a with
   | inputRead => cases ha
+  | replaceInput r => cases ha
+  | setContentLength s => cases ha
   | bodyString =>
     obtain ⟨h1, h2, h3, h4, h5, h6⟩ := getBodyString_effect q
     exact ⟨h1, h2, h3, h4, h5, h6⟩
